@@ -49,7 +49,12 @@ for name in sorted(os.listdir(MX)):
         "id": sid,
         "breaks_property": prop,
         "property_title": props.get(prop),
-        "origin": "independent sub-agent given only the property text and a scratch worktree",
+        "origin": {"1": "round 1: independent sub-agent given only the property text and a scratch worktree",
+                   "2": "round 1: independent sub-agent given only the property text and a scratch worktree",
+                   "3": "round 2: as round 1, additionally given one-line summaries of the round-1 changes for this property and asked to differ from them",
+                   "4": "round 2: as round 1, additionally given one-line summaries of the round-1 changes for this property and asked to differ from them",
+                   "5": "round 3 (adversarial): as round 1, additionally told in general terms what kind of randomized testing and schedule simulation exists and asked for changes such testing is likely to miss",
+                   "6": "round 3 (adversarial): as round 1, additionally told in general terms what kind of randomized testing and schedule simulation exists and asked for changes such testing is likely to miss"}.get(n, "sub-agent"),
         "what": first[:400],
         "needs_to_manifest": keep.get("needs_to_manifest", "see notes.md"),
         "confirmed_by_me": {"pinned_suite_passes_with_change": bool(suite and suite.group(1) == "0" and suite.group(3) == "0"),
